@@ -89,6 +89,20 @@ def stepLine (st : Option People) (line : String) : Option People × String :=
                               states := List.replicate m stA, ti := ti, nAlive := [], newDeaths := [] }
           if td.length = tot then (some p, "ok " ++ showPeople p) else (st, "bad-op")
       | _, _, _, _, _, _ => (st, "bad-op")
+  | ["plan", bits], _ =>
+      -- the rows of the regenerated loop plan scheduled in a sim whose module set gives the distinct non-empty guards
+      -- (in order of first occurrence) the truth values `bits`; the population operations one pass issues
+      match parseNatList? bits with
+      | some bs =>
+          let guards := ((Gen.planRows.map (fun r => r.2.2)).filter (fun s => s ≠ "")).eraseDups
+          let g : String → Bool := fun s => (bs.getD (guards.idxOf s) 0) == 1
+          let rows := scheduled g Gen.planRows
+          let showRow : PlanRow → String := fun r => r.1 ++ "/" ++ r.2.1
+          let opName : Op → String := fun o => match o with
+            | .stepDie => "stepdie" | .updateResults => "results" | .finishStep => "finish" | .removeDead => "removedead"
+            | .grow _ _ => "grow" | .requestDeath _ => "request"
+          (st, s!"ok guards={guards.length} rows={showList showRow rows} ops={showList opName (planOps (fun _ _ => []) rows)} pre={showList showRow (preRows rows)} post={showList showRow (postRows rows)}")
+      | none => (st, "bad-op")
   | _, _ => (st, "bad-op")
 
 def main : IO Unit := mainLoop stepLine none
